@@ -106,6 +106,8 @@ class ModelQueue:
         self.items.append(pickle.dumps(x))
 
     def get(self, block=True):
+        if getattr(self, "is_iter", False):
+            _maybe_interrupt("parent")  # Ctrl-C delivered to the parent process while it waits for progress messages
         if not self.items:
             raise pyqueue.Empty
         return pickle.loads(self.items.pop(0))
@@ -142,6 +144,7 @@ class ModelPool:
     def starmap_async(self, func, arglist):
         arglist = list(arglist)
         chain_queue = arglist[0][0]
+        arglist[0][1].is_iter = True
         items = [pickle.loads(b) for b in chain_queue.items]
         chain_queue.items = []
         outs = [None] * len(arglist)
